@@ -280,13 +280,78 @@ Proof. repeat split. Qed.
 Lemma fifo s : reachable s -> forall w, queued w s = dequeued w s ++ queue_of w (queue s).
 Proof. intros H w. apply (FifoInv_reachable s H w). Qed.
 
-(* a put may be dropped only against an identical last element of the queue *)
-Lemma skip_justified s e ev s' : step s (LESkip e ev) = Some s' ->
-  exists m, get_em s e = Some m /\ last_is (queue s) (QEv ev (ew m)) = true /\ queue s' = queue s.
+(* ------------------------------------------------------------------ _last_item is the last queued item (or None) *)
+Lemma qitem_eqb_refl x : qitem_eqb x x = true.
+Proof. destruct x; simpl; auto. rewrite !N.eqb_refl. reflexivity. Qed.
+Lemma qitem_eqb_eq x y : qitem_eqb x y = true -> x = y.
 Proof.
-  simpl. destruct (get_em s e) as [m|] eqn:E; try discriminate. destruct (epcs m); try discriminate.
-  destruct (last_is (queue s) (QEv ev (ew m))) eqn:L; try discriminate. intros H. inversion H; subst.
-  exists m. auto.
+  destruct x, y; simpl; try discriminate; auto. intros H. apply andb_true_iff in H as [H1 H2].
+  apply N.eqb_eq in H1, H2. subst. reflexivity.
+Qed.
+Lemma last_is_snoc q x : last_is (q ++ [x]) x = true.
+Proof. unfold last_is. rewrite rev_app_distr. simpl. apply qitem_eqb_refl. Qed.
+Lemma last_is_cons y q x : q <> [] -> last_is (y :: q) x = last_is q x.
+Proof.
+  intros Hq. unfold last_is. simpl. destruct (rev q) eqn:E.
+  - exfalso. apply Hq. apply (f_equal (@rev qitem)) in E. rewrite rev_involutive in E. exact E.
+  - reflexivity.
+Qed.
+Lemma last_is_in q x : last_is q x = true -> In x q.
+Proof.
+  unfold last_is. destruct (rev q) as [|y r] eqn:E; try discriminate. intros H. apply qitem_eqb_eq in H. subst y.
+  apply in_rev. rewrite E. left; reflexivity.
+Qed.
+
+Definition QlastInv (s : state) : Prop := forall x, qlast s = Some x -> last_is (queue s) x = true.
+
+Lemma qlast_set_cont t k s : qlast (set_cont t k s) = qlast s. Proof. dt t. Qed.
+
+Lemma QlastInv_get y q l : (forall x, l = Some x -> last_is (y :: q) x = true) ->
+  forall x, qlast_after_get y q l = Some x -> last_is q x = true.
+Proof.
+  intros H x E. destruct q as [|z q].
+  - exfalso. destruct y; simpl in E; try discriminate.
+    destruct l as [[e w|]|]; try discriminate. specialize (H _ eq_refl). discriminate.
+  - assert (El : l = Some x).
+    { destruct y; simpl in E; auto. destruct l as [[e w|]|]; try discriminate; auto. }
+    rewrite <- (last_is_cons y (z :: q) x) by discriminate. apply H. exact El.
+Qed.
+
+Lemma QlastInv_exec s t i k inp s' : QlastInv s -> cont s t = i :: k -> exec s t i k inp = Some s' -> QlastInv s'.
+Proof.
+  unfold QlastInv. intros Hq _ H.
+  destruct i; crush_exec H; rewrite qlast_set_cont, queue_set_cont; cbn; try exact Hq.
+  - intros x E. inversion E; subst. apply last_is_snoc.
+  - intros x E. eapply QlastInv_get with (l := qlast s); [exact Hq | exact E].
+  - intros x E. eapply QlastInv_get with (l := qlast s); [exact Hq | exact E].
+Qed.
+
+Lemma QlastInv_em s l s' : QlastInv s -> em_label l = true -> step s l = Some s' -> QlastInv s'.
+Proof.
+  unfold QlastInv. intros Hq Hl H. destruct l; try discriminate; simpl in H;
+    repeat match type of H with context [match ?x with _ => _ end] => destruct x eqn:? end;
+    try discriminate; inversion H; subst; clear H; cbn; try exact Hq.
+  intros x E. inversion E; subst. apply last_is_snoc.
+Qed.
+
+Lemma QlastInv_reachable s : reachable s -> QlastInv s.
+Proof.
+  apply reach_P.
+  - apply QlastInv_exec.
+  - intros s0 n c H _. exact H.
+  - apply QlastInv_em.
+  - intros x E. discriminate.
+Qed.
+
+(* a put may be dropped only against an identical last element of the queue *)
+Lemma skip_justified s : reachable s -> forall e ev s', step s (LESkip e ev) = Some s' ->
+  exists m, get_em s e = Some m /\ qlast s = Some (QEv ev (ew m)) /\
+            last_is (queue s) (QEv ev (ew m)) = true /\ queue s' = queue s.
+Proof.
+  intros Hs e ev s'. simpl. destruct (get_em s e) as [m|] eqn:E; try discriminate. destruct (epcs m); try discriminate.
+  destruct (qlast_is s (QEv ev (ew m))) eqn:L; try discriminate. intros H. inversion H; subst.
+  exists m. unfold qlast_is in L. destruct (qlast s) as [y|] eqn:Ey; try discriminate.
+  apply qitem_eqb_eq in L. subst y. repeat split; auto. apply (QlastInv_reachable s Hs). exact Ey.
 Qed.
 
 
